@@ -323,6 +323,24 @@ def run(chk):
         return True, "", [now[0].loc, rg[0].loc]
     chk.ob("C05.R6:Timer::extent", "the extent is range(start reading .. a fresh Clock::now), only when both exist", timer_extent)
 
+    def timer_to_extent():
+        bs = [b for b in P.find(trait="emit_core::extent::ToExtent", method="to_extent") if not b.is_closure and (b.self_ty or "").startswith("emit::timer::Timer<")]
+        if not bs:
+            raise mir.AnchorMissing("impl ToExtent for Timer")
+        b = bs[0]
+        cs = [c for c in b.calls(normal_only=True)]
+        ex = [c for c in cs if (c.callee.get("path") or "").endswith("Timer::<C>::extent") or c.callee.get("name") == "extent"]
+        if len(ex) != 1 or len(cs) != 1:
+            return False, ("a completed span takes its extent through Timer's ToExtent impl, which must be exactly Timer::extent() "
+                           "(start reading .. fresh reading); it calls %s" % [c.callee.get("name") for c in cs]), [], b.span
+        if not mir.o_is_param(b.origin(ex[0].args[0], through_calls=("deref",)), idx=1):
+            return False, "to_extent does not ask self", [], ex[0].loc
+        r = b.origin(0)
+        if not (r[0] == "call" and r[1].bb == ex[0].bb):
+            return False, "to_extent does not return Timer::extent()'s result", [], ex[0].loc
+        return True, "", [ex[0].loc]
+    chk.ob("C05.R6:Timer::to_extent", "the extent a completed span carries is Timer::extent() (range start..now, also when the clock went backwards)", timer_to_extent)
+
     # ---------------- R7 default completion panic arm ---------------------------------------------------------
     def is_panicking():
         ks = [k for k in P.bodies if k.endswith("::complete::is_panicking")]
@@ -474,6 +492,13 @@ def run(chk):
             return False, "does not pass the span on", [], cc[0].loc
         return True, "", [wl[0].loc, wp[0].loc, cc[0].loc]
     chk.ob("C05.hooks:__PrivateCompleteSpan::complete", "the macro completion feeds lvl to with_lvl and panic_lvl to with_panic_lvl and completes once", hook_complete)
+
+    # the macro side of the same plumbing, read off the quote! templates of emit_macros (macro/runtime boundary)
+    from . import quotes
+    quotes.boundary_rule(chk, P, "C05", {"__private_complete_span", "__private_complete_span_ok", "__private_complete_span_err",
+                                         "__private_begin_span"}, 7)
+    quotes.flows_rule(chk, P, "C05", "emit_macros::span::completion", "__private_complete_span", "panic_lvl", ("panic_lvl",), ("default_lvl", "lvl"))
+    quotes.flows_rule(chk, P, "C05", "emit_macros::span::completion", "__private_complete_span", "lvl", ("default_lvl",), ("panic_lvl",))
 
     # forwarding Completion impls
     n = 0
